@@ -516,4 +516,141 @@ mod tests {
 
 /// Verification hooks: access to the crate-private fetcher for the external /verif harness.
 #[cfg(maidsafe_safe_network_verif)]
-pub mod verif {}
+pub mod verif {
+    use super::{
+        Instant, ReplicationFetcher, FETCH_TIMEOUT, MAX_PARALLEL_FETCH, PENDING_TIMEOUT,
+    };
+    use crate::event::NetworkEvent;
+    use ant_evm::U256;
+    use ant_protocol::{convert_distance_to_u256, storage::RecordType, NetworkAddress};
+    use libp2p::{kad::RecordKey, PeerId};
+    use std::collections::HashMap;
+    use tokio::{sync::mpsc, time::Duration};
+
+    /// `(MAX_PARALLEL_FETCH, FETCH_TIMEOUT in ms, PENDING_TIMEOUT in ms)` as compiled.
+    pub fn constants() -> (usize, u128, u128) {
+        (
+            MAX_PARALLEL_FETCH,
+            FETCH_TIMEOUT.as_millis(),
+            PENDING_TIMEOUT.as_millis(),
+        )
+    }
+
+    /// One `to_be_fetched` entry: key, type, holder, remaining milliseconds (negative once expired).
+    pub type PendingEntry = (RecordKey, RecordType, PeerId, i128);
+    /// One `on_going_fetches` entry: key, type, holder, remaining milliseconds (negative once expired).
+    pub type OngoingEntry = (RecordKey, RecordType, PeerId, i128);
+
+    fn remaining_ms(deadline: Instant, now: Instant) -> i128 {
+        if deadline >= now {
+            deadline.duration_since(now).as_millis() as i128
+        } else {
+            -(now.duration_since(deadline).as_millis() as i128)
+        }
+    }
+
+    /// Public wrapper around the crate-private `ReplicationFetcher`.
+    pub struct Fetcher {
+        inner: ReplicationFetcher,
+    }
+
+    impl Fetcher {
+        pub fn new(self_peer_id: PeerId, event_sender: mpsc::Sender<NetworkEvent>) -> Self {
+            Self {
+                inner: ReplicationFetcher::new(self_peer_id, event_sender),
+            }
+        }
+
+        pub fn add_keys(
+            &mut self,
+            holder: PeerId,
+            incoming_keys: Vec<(NetworkAddress, RecordType)>,
+            locally_stored_keys: &HashMap<RecordKey, (NetworkAddress, RecordType)>,
+        ) -> Vec<(PeerId, RecordKey)> {
+            self.inner
+                .add_keys(holder, incoming_keys, locally_stored_keys)
+        }
+
+        pub fn next_keys_to_fetch(&mut self) -> Vec<(PeerId, RecordKey)> {
+            self.inner.next_keys_to_fetch()
+        }
+
+        pub fn notify_about_new_put(
+            &mut self,
+            new_put: RecordKey,
+            record_type: RecordType,
+        ) -> Vec<(PeerId, RecordKey)> {
+            self.inner.notify_about_new_put(new_put, record_type)
+        }
+
+        pub fn notify_fetch_early_completed(
+            &mut self,
+            key_in: RecordKey,
+            record_type: RecordType,
+        ) -> Vec<(PeerId, RecordKey)> {
+            self.inner.notify_fetch_early_completed(key_in, record_type)
+        }
+
+        pub fn set_replication_distance_range(&mut self, distance_range: U256) {
+            self.inner.set_replication_distance_range(distance_range)
+        }
+
+        pub fn set_farthest_on_full(&mut self, farthest_in: Option<RecordKey>) {
+            self.inner.set_farthest_on_full(farthest_in)
+        }
+
+        /// Read-only dump of `to_be_fetched` and `on_going_fetches` taken against one `Instant::now()`.
+        pub fn dump(&self) -> (Vec<PendingEntry>, Vec<OngoingEntry>) {
+            let now = Instant::now();
+            let pending = self
+                .inner
+                .to_be_fetched
+                .iter()
+                .map(|((k, t, h), d)| (k.clone(), t.clone(), *h, remaining_ms(*d, now)))
+                .collect();
+            let ongoing = self
+                .inner
+                .on_going_fetches
+                .iter()
+                .map(|((k, t), (h, d))| (k.clone(), t.clone(), *h, remaining_ms(*d, now)))
+                .collect();
+            (pending, ongoing)
+        }
+
+        pub fn to_be_fetched(&self) -> Vec<PendingEntry> {
+            self.dump().0
+        }
+
+        pub fn on_going_fetches(&self) -> Vec<OngoingEntry> {
+            self.dump().1
+        }
+
+        pub fn distance_range(&self) -> Option<U256> {
+            self.inner.distance_range
+        }
+
+        pub fn farthest_acceptable_distance(&self) -> Option<U256> {
+            self.inner
+                .farthest_acceptable_distance
+                .as_ref()
+                .map(convert_distance_to_u256)
+        }
+
+        /// Distance of a record key to this node's id, as the fetcher computes it.
+        pub fn distance_to_self(&self, key: &RecordKey) -> U256 {
+            let self_addr = NetworkAddress::from_peer(self.inner.self_peer_id);
+            convert_distance_to_u256(&self_addr.distance(&NetworkAddress::from_record_key(key)))
+        }
+
+        /// Let `ms` milliseconds pass for the fetcher: every stored deadline moves `ms` into the past.
+        pub fn age(&mut self, ms: u64) {
+            let d = Duration::from_millis(ms);
+            for deadline in self.inner.to_be_fetched.values_mut() {
+                *deadline -= d;
+            }
+            for (_, deadline) in self.inner.on_going_fetches.values_mut() {
+                *deadline -= d;
+            }
+        }
+    }
+}
